@@ -46,6 +46,36 @@ class Tracer:
             if v is not None and (e.get('t') or {}).get('k') == 'bool':
                 return 1 if v else 0
             return v
+        if k == 'un' and e.get('op') in ('++', '--'):
+            tgt = strip(e['e'])
+            if not getattr(self, 'fx', False) or tgt.get('k') != 'ref' or tgt.get('rk') not in ('local', 'param') or self.env.get(tgt['id']) is None:
+                return None
+            cur = self.env[tgt['id']]
+            new = cur + (1 if e['op'] == '++' else -1)
+            bits = 8 * ((tgt.get('t') or {}).get('size') or 0)
+            if bits and not (tgt.get('t') or {}).get('signed'):
+                new %= (1 << bits)
+            self.env[tgt['id']] = new
+            return cur if e.get('post') else new
+        if k == 'assign' and getattr(self, 'fx', False):
+            tgt = strip(e['lhs'])
+            if tgt.get('k') == 'ref' and tgt.get('rk') in ('local', 'param'):
+                r = self.val(e['rhs'], zero_calls)
+                cur = self.env.get(tgt['id'])
+                op = e.get('op')
+                if r is None or (op != '=' and cur is None):
+                    self.env.pop(tgt['id'], None)
+                    return None
+                new = {'=': r, '+=': (cur or 0) + r, '-=': (cur or 0) - r, '>>=': (cur or 0) >> r, '<<=': (cur or 0) << r}.get(op)
+                if new is None:
+                    self.env.pop(tgt['id'], None)
+                    return None
+                bits = 8 * ((tgt.get('t') or {}).get('size') or 0)
+                if bits and not (tgt.get('t') or {}).get('signed'):
+                    new %= (1 << bits)
+                self.env[tgt['id']] = new
+                return new
+            return None
         if k == 'un':
             v = self.val(e['e'], zero_calls)
             if v is None:
@@ -128,6 +158,11 @@ class Tracer:
                 self.emit(STEP[name], group, idx, loc_str(e))
             elif name == 'from_affine' and e.get('this') is not None and pr.norm_obj(pr.canon(e['this'], self.binds)).endswith('.r'):
                 self.emit('RESET-R', group, None, loc_str(e))
+            elif e.get('this') is not None and self.fn.get('params') and pr.canon(e['this'], self.binds) == 'P:' + self.fn['params'][0]['name'] and \
+                    'Fq12' in (self.fn['params'][0]['t'].get('s') or ''):
+                # any other member call on the accumulator
+                one = any(pr.canon(a).startswith('G:') and pr.canon(a).endswith('::one') for a in e.get('args', []))
+                self.emit('INIT' if (name == 'copy' and one) else 'X', group, name, loc_str(e))
             return
         if e.get('k') == 'assign':
             l = strip(e['lhs'])
@@ -179,27 +214,47 @@ class Tracer:
                 self.stmt(s.get('else'), group)
                 return
             self.stmt(s['then'] if v else s.get('else'), group)
-        elif k == 'for':
+        elif k in ('for', 'while', 'do'):
+            # a loop whose control is determined by constants (the bits of |x|) is run concretely, whatever its form: the condition
+            # and the increment are evaluated with their side effects (`i-- != 0`, `i -= 1`, ...)
+            saved = dict(self.env)
             init = s.get('init')
-            ivid = init['vars'][0]['id'] if init and init.get('k') == 'decl' else None
-            start = self.val(init['vars'][0]['init']) if ivid is not None else None
-            c = strip(s['c'])
-            bound = self.val(c['rhs']) if c.get('k') == 'bin' else None
-            inc = strip(s['inc'])
-            if ivid is not None and start is not None and bound is not None and strip(c['lhs']).get('id') == ivid and inc.get('op') in ('++', '--'):
-                step = 1 if inc['op'] == '++' else -1
-                v = start
-                test = {'!=': lambda x: x != bound, '<': lambda x: x < bound, '>': lambda x: x > bound,
-                        '>=': lambda x: x >= bound, '<=': lambda x: x <= bound}[c['op']]
-                while test(v):
+            if init is not None:
+                if init.get('k') == 'decl':
+                    self.stmt(init, group)
+                else:
+                    self.fx = True
+                    self.val(init.get('e', init))
+                    self.fx = False
+
+            def test():
+                if s.get('c') is None:
+                    return None
+                self.fx = True
+                try:
+                    return self.val(s['c'])
+                finally:
+                    self.fx = False
+            first = 1 if k == 'do' else test()
+            if first is not None:
+                go = first
+                while go:
                     self.iters += 1
                     if self.iters > 100000:
                         raise bm.AnalysisBroken('%s: loop does not terminate under constant evaluation' % self.fn['qn'])
-                    self.env[ivid] = v
                     self.stmt(s['body'], group)
-                    v += step
-                self.env.pop(ivid, None)
+                    if s.get('inc') is not None:
+                        self.fx = True
+                        self.val(s['inc'])
+                        self.fx = False
+                    go = test()
+                    if go is None:
+                        raise bm.AnalysisBroken('%s: the loop at %s stops being determined by constants' % (self.fn['qn'], loc_str(s)))
+                if init is not None and init.get('k') == 'decl':
+                    for v in init['vars']:
+                        self.env.pop(v['id'], None)
             else:
+                self.env = saved
                 # run-time loop over the pairs: one generic iteration; which array decides the group
                 grp = group
                 for x in walk(s['body']):
@@ -218,7 +273,7 @@ class Tracer:
             raise bm.AnalysisBroken('%s: statement %s at %s not supported by the constant-loop evaluator' % (self.fn['qn'], k, loc_str(s)))
 
 
-def rule_ccl(ctx, cfg, prog):
+def rule_ccl(ctx, cfg, prog, schedule=False):
     fp = prog.fn_by_qn(NS + 'G2Prepared::prepare')
     fm = [f for f in prog.fn_by_qn(NS + 'miller_loop') if len(f['params']) == 5]
     ctx.require(len(fp) == 1 and len(fm) == 1, 'G2Prepared::prepare / miller_loop not found')
@@ -276,6 +331,32 @@ def rule_ccl(ctx, cfg, prog):
     last_step = max(i for i, e in enumerate(ev) if e[0] in ('D', 'A', 'E', 'SQ'))
     ctx.ob('R-CCL', (len(cj) == 1 and ev.index(cj[0]) > last_step) if neg else not cj, 'ccl|conjugate', loc_str(fm[0]),
            'the accumulator must be conjugated exactly once, after the loop, iff x is negative', cfg=cfg)
+    # the schedule itself: f := 1; for every bit of |x| below the top one, from the top down: f := f^2 (skipped while f == 1), tangent line;
+    # chord line if the bit is set.  Written with the squaring at the end of an iteration, that is: blocks [D E (A E)?] separated by
+    # exactly one squaring, none after the last block, and nothing else touching the accumulator.
+    from . import bls
+    X = abs(bls.X)
+    want = []
+    for b in range(X.bit_length() - 2, -1, -1):
+        if want:
+            want.append('SQ')
+        want += ['D', 'E']
+        if (X >> b) & 1:
+            want += ['A', 'E']
+    got = [e[0] for e in ev if e[0] in ('SQ', 'X') or (e[1] == 'affine' and e[0] in ('D', 'A', 'E'))]
+    while got and got[0] == 'SQ':
+        got.pop(0)              # squaring the accumulator while it is still one changes nothing
+    inits = [e for e in ev if e[0] == 'INIT']
+    first_acc = next((i for i, e in enumerate(ev) if e[0] in ('SQ', 'X', 'E', 'CJ')), len(ev))
+    okinit = len(inits) == 1 and ev.index(inits[0]) < first_acc
+    diff = next((i for i, (a, b) in enumerate(zip(got, want)) if a != b), min(len(got), len(want)))
+    if schedule:
+        ctx.ob('R-CCL', got == want and okinit, 'ccl|schedule', loc_str(fm[0]),
+               'the accumulator updates of miller_loop are not the Miller schedule of |x| = 0x%x: per generic pair the sequence (SQ = squaring, D/A = '
+               'tangent/chord step, E = line evaluation, X = other update) has %d entries, the schedule %d; first difference at entry %d: found %s, '
+               'schedule %s; trailing entries found %s, schedule %s%s' % (X, len(got), len(want), diff, got[diff:diff + 4], want[diff:diff + 4], got[-3:], want[-3:],
+                                                                         '' if okinit else '; the accumulator is not set to one exactly once before its first use'),
+               cfg=cfg, sample=dict(config=cfg, schedule_entries=len(want), squarings=want.count('SQ'), tangent_steps=want.count('D'), chord_steps=want.count('A')))
     ctx.count('trace_events[%s]' % cfg, len(ev) + len(tp.events))
     return len(ev)
 
